@@ -190,6 +190,12 @@ impl RangeChunksExact {
     //@| ensures r.0 as int == rlen(self.remainder) / (self.chunk_size as int), r.1 == Some(r.0), // @ob:exact_size_hint.exact
 }
 
+//@extract kind=fn file=rten-base/src/iter/range.rs name=range_chunks
+//@| ensures r.remainder == range, r.chunk_size == chunk_size, // @ob:range_chunks.initial_state
+
+//@extract kind=fn file=rten-base/src/iter/range.rs name=range_chunks_exact
+//@| ensures r.remainder == range, r.chunk_size == chunk_size, // @ob:range_chunks_exact.initial_state
+
 } // mod
 } // verus!
 fn main() {}
